@@ -82,6 +82,22 @@ def slow_auth_sessions():
     return out
 
 
+def slow_user_sessions():
+    """The account lookup takes a few loop iterations and the next command arrives meanwhile: a second USER supersedes the
+    first whichever lookup finishes first, and nothing is served on the strength of the login the pending USER has dropped."""
+    out = []
+    tail = [["tick", 0], ["send", 1, "PWD"], ["send", 1, "MLST f"], ["send", 1, "PASS pw3"], ["send", 1, "PWD"]]
+    for pre in ([], [["send", 1, "USER u2"]], [["send", 1, "USER u1"], ["send", 1, "PASS pw1"]]):
+        for first in ("u2", "u1", "nobody"):
+            for second in ("u3", "u1", "u2", "nobody"):
+                for gap in (0, 1, 2, 4, 7):
+                    out.append([["connect", 1]] + pre + [["nq", ["send", 1, "USER " + first]], ["iter", gap], ["nq", ["send", 1, "USER " + second]]] + tail)
+            for v in ("PWD", "TYPE I", "SYST"):
+                for gap in (0, 1, 3):
+                    out.append([["connect", 1]] + pre + [["nq", ["send", 1, "USER " + first]], ["iter", gap], ["nq", ["send", 1, v]]] + tail)
+    return out
+
+
 def twin_sessions():
     """Two control sessions, one of them not (or not yet, or no longer) logged in, sending the same command in the same instant -
     in both orders, and one to three event-loop iterations apart."""
@@ -120,6 +136,11 @@ def run(tier, seed):
     sl = slow_auth_sessions()
     for k in (1, 4):
         corecheck.validate(chk, gen.std_cfg(ns=1, users=SLOW_USERS, slow_auth=k), gen.STD_TREE, sl, label="slow-auth:%d" % k)
+    su = slow_user_sessions()
+    for tag, delays in (("even", {"*": 3}), ("first-slower", {"u2": 6, "nobody": 5, "*": 1}), ("second-slower", {"u3": 6, "u1": 4, "*": 1})):
+        corecheck.validate(chk, gen.std_cfg(ns=1, users=SLOW_USERS, slow_user=delays), gen.STD_TREE, su if tier != "quick" or tag != "even" else su[::2],
+                           label="slow-user:" + tag)
+    corecheck.validate(chk, gen.std_cfg(ns=1, users=SLOW_USERS, slow_user={"*": 2}, slow_auth=3), gen.STD_TREE, sl + su[::3], label="slow-both")
     tw = twin_sessions()
     corecheck.validate(chk, gen.std_cfg(ns=2, users=[u for u in gen.STD_USERS if u["id"] != "anon"]), gen.STD_TREE, tw if tier != "quick" else tw[::2], label="twins")
     chk.cov["rule"] = ("all command histories of length <= 2 and seeded ones of length 3..6 over %d command kinds (every login "
